@@ -43,6 +43,10 @@ type Plan struct {
 	PreVote     bool
 	Quiesce     bool
 	NonVoting   bool // host Hosts-1 joins as a non-voting member
+	// StaleReaders goroutines call StaleRead (a bare Lookup on the local replica) on
+	// random hosts for the whole run; not part of the checked history
+	StaleReaders int
+	SlowRecoverMs int // RecoverFromSnapshot takes this long
 }
 
 type FaultKind int
@@ -58,10 +62,11 @@ const (
 	FLoss
 	FPowerCutAll
 	FCloseDuringSnapshot
+	FIsolate // host A is cut off from every other host, both directions
 	numFaultKinds
 )
 
-var faultNames = [...]string{"partition", "heal", "powercut", "restart", "transfer", "snapshot", "stopreplica", "loss", "powercut-all", "close-during-snapshot"}
+var faultNames = [...]string{"partition", "heal", "powercut", "restart", "transfer", "snapshot", "stopreplica", "loss", "powercut-all", "close-during-snapshot", "isolate"}
 
 type Fault struct {
 	Kind    FaultKind
@@ -287,6 +292,7 @@ func RunPlan(p Plan) *Result {
 	rec := NewRecorder()
 	rec.Widen = time.Duration(p.WidenUs) * time.Microsecond
 	rec.SlowSnapshot = time.Duration(p.SlowSnapMs) * time.Millisecond
+	rec.SlowRecover = time.Duration(p.SlowRecoverMs) * time.Millisecond
 	c := NewCluster(ClusterOptions{Hosts: p.Hosts, Tan: p.Tan, Seed: 7, RTTms: 2})
 	res := &Result{Plan: p, Rec: rec, Flags: map[string]int{}, Cluster: c}
 	res.sent = newSendMonitor(res, c)
@@ -301,6 +307,7 @@ func RunPlan(p Plan) *Result {
 	}
 	members := c.Members(voters)
 	for _, h := range c.Hosts {
+		h.Mon.OnSnapshotRecord = rec.SnapshotCreated
 		if err := h.Start(); err != nil {
 			res.violate("harness-nodehost-start-failed", "%v", err)
 			return res
@@ -399,6 +406,7 @@ func RunPlan(p Plan) *Result {
 						r, got := awaitResult(rs, timeout)
 						if !got {
 							res.violate("no-terminal-result", "ReadIndex on host %d (timeout %v) delivered no result within the deadline plus 10 s", hi, timeout)
+							res.violate("read-no-terminal-result", "ReadIndex on host %d (timeout %v) delivered no result within the deadline plus 10 s", hi, timeout)
 							op.Outcome, op.Ret = "noresult", Now()
 							continue
 						}
@@ -506,6 +514,31 @@ func RunPlan(p Plan) *Result {
 		}(ci)
 	}
 
+	var staleWg sync.WaitGroup
+	for si := 0; si < p.StaleReaders; si++ {
+		staleWg.Add(1)
+		go func(si int) {
+			defer staleWg.Done()
+			rnd := newLCG(int64(977 + si))
+			for {
+				select {
+				case <-stopClients:
+					return
+				default:
+				}
+				hostMu.RLock()
+				h := c.Hosts[rnd.intn(p.Hosts)]
+				if h.Up && h.NH != nil {
+					if _, err := h.NH.StaleRead(shardID, fmt.Sprintf("k%d", rnd.intn(p.Keys))); err == nil {
+						res.flag("stale-read-ok")
+					}
+				}
+				hostMu.RUnlock()
+				time.Sleep(100 * time.Microsecond)
+			}
+		}(si)
+	}
+
 	// fault plan
 	faultsDone := make(chan struct{})
 	go func() {
@@ -525,6 +558,13 @@ func RunPlan(p Plan) *Result {
 					c.Net.SetDown(a.Addr, b.Addr, true)
 					if f.B%2 == 0 {
 						c.Net.SetDown(b.Addr, a.Addr, true)
+					}
+				}
+			case FIsolate:
+				for _, o := range c.Hosts {
+					if o != a {
+						c.Net.SetDown(a.Addr, o.Addr, true)
+						c.Net.SetDown(o.Addr, a.Addr, true)
 					}
 				}
 			case FLoss:
@@ -652,6 +692,7 @@ func RunPlan(p Plan) *Result {
 	close(stopClients)
 	<-faultsDone
 	<-trigDone
+	staleWg.Wait()
 
 	// heal, restart everything, final reads through every host
 	c.Net.HealAll()
@@ -661,7 +702,58 @@ func RunPlan(p Plan) *Result {
 	}
 	hostMu.Unlock()
 	res.finalReads(p)
+	res.finalAgreement()
 	return res
+}
+
+// finalAgreement: C02. With the network healed and no client traffic every
+// running replica converges on the same applied index; replicas that report the
+// same applied index must hold identical user state (data and number of Update
+// calls folded into it - a double apply or a snapshot stamped with the wrong
+// index shows up in the count).
+func (res *Result) finalAgreement() {
+	c := res.Cluster
+	deadline := time.Now().Add(5 * time.Second)
+	for {
+		states := map[string]string{}
+		applied := map[string]string{}
+		for _, h := range c.Hosts {
+			if !h.Up || h.NH == nil {
+				continue
+			}
+			v, err := h.NH.StaleRead(shardID, "\x00state")
+			if err != nil {
+				continue
+			}
+			s, _ := v.(string)
+			states[h.Addr] = s
+			applied[h.Addr] = strings.SplitN(s, " ", 2)[0]
+		}
+		byApplied := map[string]string{}
+		converged := len(states) > 1
+		var first string
+		for a, s := range states {
+			if prev, ok := byApplied[applied[a]]; ok && prev != s {
+				res.violate("replica-state-differs-at-same-index", "two replicas at %s hold different user state: %q vs %q", applied[a], prev, s)
+				return
+			}
+			byApplied[applied[a]] = s
+			if first == "" {
+				first = applied[a]
+			} else if first != applied[a] {
+				converged = false
+			}
+		}
+		if converged {
+			res.flag("final-states-compared")
+			return
+		}
+		if time.Now().After(deadline) {
+			res.flag("final-states-not-converged")
+			return
+		}
+		time.Sleep(20 * time.Millisecond)
+	}
 }
 
 // awaitResult waits for the terminal result of an asynchronous request: every
@@ -701,6 +793,15 @@ func (res *Result) powerCut(h *Host, spec *ShardSpec) {
 	res.flag("power-cut")
 }
 
+// restartSig names the way a replica failed to come back.
+func restartSig(err error) string {
+	if err != nil && strings.Contains(err.Error(), "out of range state") {
+		// raft.loadState: the persisted commit index is outside the recovered log range
+		return "restart-panics-commit-outside-log-range"
+	}
+	return "restart-failed"
+}
+
 func (res *Result) restart(h *Host, startReplica func(*Host) error) {
 	if h.Up {
 		return
@@ -712,7 +813,9 @@ func (res *Result) restart(h *Host, startReplica func(*Host) error) {
 		return
 	}
 	if err := startReplica(h); err != nil {
-		res.violate("restart-failed", "host %d: StartReplica failed after power cut: %v", h.Idx, err)
+		d := h.Mon.Get(shardID, rid)
+		res.violate(restartSig(err), "host %d: StartReplica failed after power cut: %v (ever-durable shadow of the log store: state %+v, snapshot record %d, last index %d)",
+			h.Idx, err, d.State, d.SnapIndex, d.LastIndex)
 		return
 	}
 	res.flag("restart")
@@ -894,6 +997,61 @@ func (res *Result) CheckStreams() {
 			res.violateLocked("write-applied-twice", "%q applied at index %d and at index %d", cmd, prev, idx)
 		}
 		idxOf[cmd] = idx
+	}
+	// C02/C08: the content of a snapshot is the state at the index the snapshot is
+	// stamped with. The image handed to SaveSnapshot carries the state machine's own
+	// applied index A; the finished snapshot is reported with index M. Entries in
+	// (A, M] must be entries that never reach Update (membership changes, no-ops,
+	// session bookkeeping), and A must not be ahead of M.
+	if res.Plan.Kind != KindOnDisk {
+		for name, created := range res.Rec.Created {
+			imgs := res.Rec.ImagesBy[name]
+			res.mu.Lock()
+			res.Flags["snapshot-index-vs-image-checked"] += len(created)
+			res.mu.Unlock()
+			for _, m := range created {
+				var best uint64
+				for _, a := range imgs {
+					if a <= m && a > best {
+						best = a
+					}
+				}
+				for j := best + 1; j <= m; j++ {
+					if cmd, ok := byIndex[j]; ok {
+						res.violateLocked("snapshot-content-not-at-snapshot-index",
+							"replica %s finished a snapshot stamped with index %d, the newest image it saved at or below that index has applied index %d (images %v), but entry %d (%q) is a user entry",
+							name, m, best, imgs, j, cmd)
+						break
+					}
+				}
+			}
+		}
+	}
+	// C06: a completed read never returns a value that was overwritten (in apply
+	// order) by a write acknowledged before the read was issued
+	for _, rd := range res.Ops {
+		if rd.Write || rd.Outcome != "completed" || rd.Mode == "final" {
+			continue
+		}
+		var seenIdx uint64
+		if rd.Val != "" {
+			idx, ok := idxOf["P|"+rd.Key+"|"+rd.Val]
+			if !ok {
+				res.violateLocked("read-returned-unapplied-value", "read %d of %s returned %q which no replica applied", rd.ID, rd.Key, rd.Val)
+				continue
+			}
+			seenIdx = idx
+		}
+		for _, w := range res.Ops {
+			if !w.Write || w.Key != rd.Key || w.Outcome != "completed" || w.Ret >= rd.Call {
+				continue
+			}
+			if widx, ok := idxOf["P|"+w.Key+"|"+w.Val]; ok && widx > seenIdx {
+				res.violateLocked("stale-read", "read %d (%s on host %d, issued at %d) returned %q (index %d) although write %q (index %d) was acknowledged at %d",
+					rd.ID, rd.Mode, rd.Host, rd.Call, rd.Val, seenIdx, w.Val, widx, w.Ret)
+				break
+			}
+		}
 	}
 	// dropped / rejected requests never reach a state machine (C12)
 	for _, op := range res.Ops {
